@@ -261,6 +261,7 @@ void arena_fill(Task &t);
 
 // handler log: harness handlers call this
 void note_handler(int hid, int kind, const char *msg, int code);
+extern void (*g_handler_hook)(int hid, int code); // called (on the alt stack) for every logged handler invocation
 extern "C" void sim_handler_log(const char *msg, void *ptr, int error);   // hid 1 (C12/C20 default registration)
 
 // allocation tracking
